@@ -378,3 +378,24 @@ func init() {
 	silent("C19", "terminal-base-looked-up-with-index-from-zero", pm, last, "\tif strings.IndexByte(\"AT\", sequence[len(sequence)-1]) >= 0 {\n")
 	fire("C13", "name-taken-as-second-piece-of-the-header", "io/fasta/fasta.go", `\t\t\tname = line\[1:\]\n\t\t\tstart = false\n`, "\t\t\tname = strings.Split(line, \">\")[1]\n\t\t\tstart = false\n", "TERM/parser:name")
 }
+
+// positive and negative examples for the rules of round 31: a memo key that holds only the length of a list, and a
+// memo inside the package whose result no caller edits
+func init() {
+	cd := "transform/codon/codon.go"
+	fire := func(prop, name, file, find, repl, expect string) {
+		addVariant(variant{Prop: prop, Name: name, File: file, Find: find, Replace: repl, Expect: expect})
+	}
+	silent := func(prop, name, file, find, repl string) {
+		addVariant(variant{Prop: prop, Name: name, File: file, Find: find, Replace: repl, Silent: true})
+	}
+	gen := `func \(codonTable Table\) generateTranslationTable\(\) map\[string\]string \{\n\tvar translationMap = make\(map\[string\]string\)\n((?:.*\n)*?)\treturn translationMap\n`
+	memo := func(key string) string {
+		return "var translationTables = map[string]map[string]string{}\n\nfunc (codonTable Table) generateTranslationTable() map[string]string {\n" + key + "\tif cached, ok := translationTables[key]; ok {\n\t\treturn cached\n\t}\n\tvar translationMap = make(map[string]string)\n${1}\ttranslationTables[key] = translationMap\n\treturn translationMap\n"
+	}
+	fullKey := "\tvar spelled strings.Builder\n\tfor _, aminoAcid := range codonTable.AminoAcids {\n\t\tfor _, codon := range aminoAcid.Codons {\n\t\t\tspelled.WriteString(codon.Triplet + \"=\" + aminoAcid.Letter + \";\")\n\t\t}\n\t}\n\tkey := spelled.String()\n"
+	fire("C07", "translation-map-remembered-by-start-codons-and-table-length", cd, gen, memo("\tkey := strings.Join(codonTable.StartCodons, \",\") + strings.Repeat(\"x\", len(codonTable.AminoAcids))\n"), "STATE/memo-key")
+	silent("C07", "translation-map-remembered-by-every-codon-and-only-read", cd, gen, memo(fullKey))
+	both := `(?s)\ttranslationTable := codonTable\.generateTranslationTable\(\)\n(.*?)` + strings.Replace(gen, "((?:.*\\n)*?)", "((?-s:(?:.*\\n)*?))", 1)
+	fire("C07", "remembered-translation-map-edited-by-its-caller", cd, both, "\ttranslationTable := codonTable.generateTranslationTable()\n\ttranslationTable[\"NNN\"] = \"X\"\n${1}"+strings.Replace(memo(fullKey), "${1}", "${2}", 1), "STATE/memo-alias")
+}
